@@ -121,7 +121,7 @@ def make_case(index, rng, tier):
         paths = [rng.choice(["/a", "/a", "/sleep/0.3", "/sleep/1.0", "/b"]) for _ in range(nreq)]
         clients.append({"t": round(t, 2), "paths": paths, "gap": round(rng.uniform(0.05, 0.6), 2)})
         t += rng.uniform(0.0, 0.15) if concurrent else rng.uniform(0.3, 1.2)
-    return {"family": fam, "kind": kind, "max_requests": mr, "jitter": rng.choice([0, 0, 1, 2]), "clients": clients,
+    return {"family": fam, "kind": kind, "wconn": rng.choice([2, 3, 20]) if kind in ("gevent", "eventlet") else 20, "max_requests": mr, "jitter": rng.choice([0, 0, 1, 2]), "clients": clients,
             "threads": rng.randrange(1, 4), "keepalive": rng.choice([0, 2, 2]), "workers": rng.randrange(1, 3), "binds": rng.choice([1, 1, 2]),
             "buggify": {"pyticks": rng.randrange(3) == 0, "short_recv": rng.randrange(4) == 0, "fork_child_first": rng.randrange(2) == 0}, "preempt": rng.randrange(0, 4)}
 
@@ -152,7 +152,7 @@ def run_worker(case, choices):
         sim.py_ticks = True          # eval-breaker points inside gunicorn's Python code are delivery / pre-emption points too
     kind = case["kind"]
     w = W.WorkerWorld(sim, kind, {"timeout": 30, "graceful_timeout": 5, "keepalive": case["keepalive"], "threads": case["threads"],
-                                  "worker_connections": 20, "max_requests": case["max_requests"], "max_requests_jitter": case["jitter"]},
+                                  "worker_connections": case.get("wconn", 20), "max_requests": case["max_requests"], "max_requests_jitter": case["jitter"]},
                       extra_addrs=[("127.0.0.1", 8001)] if case.get("binds", 1) == 2 else ())
     for i in range(case["preempt"]):
         sim.preempt_at.add(1 + choices.choose(3000, "preempt"))
@@ -265,7 +265,7 @@ def run_full(case, choices):
     cfg = {"workers": case["workers"], "timeout": 6, "graceful_timeout": 5,
            "bind": ["127.0.0.1:8000"] + (["127.0.0.1:8001"] if case.get("binds", 1) == 2 else []), "proc_name": "m0",
            "max_requests": case["max_requests"], "max_requests_jitter": case["jitter"], "threads": case["threads"],
-           "keepalive": case["keepalive"], "worker_connections": 20}
+           "keepalive": case["keepalive"], "worker_connections": case.get("wconn", 20)}
     w = master.World(sim, cfg)
     host = w.use_real_workers(kind)
     m = w.start_master()
